@@ -19,49 +19,42 @@ type VerifRegResult struct {
 // VerifSetupRegisters drives the REAL (*State).extendFunctionEnv: a function whose parameters are `used`
 // integer parameters that do not occur in the body (each takes one register: these are the "registers already
 // in use") followed by the candidate names, called with integer arguments where isInt and strings elsewhere.
-// The per-candidate outcome is read back from the environments extendFunctionEnv returns for the first k
-// candidates, k = 1..len(names) (its decisions are sequential, so the register count after k candidates minus
-// the one after k-1 says whether candidate k got a register); the body is the one returned for all of them.
+// The per-candidate outcome is read back from the environment extendFunctionEnv returns: candidate i is passed the
+// integer 1000+i, and the register file (values in allocation order) says which candidates got a register and
+// which one. (Decisions are not a function of the prefix of the parameter list any more: a parameter shadowed by a
+// later one of the same name is not eligible.)
 // err is non-nil when extendFunctionEnv refuses the call (binding an extension or a constant name).
 func VerifSetupRegisters(noReg bool, used int, names []string, isInt []bool, body *ast.Statements) (ast.Node, []VerifRegResult, *object.Error) {
-	run := func(k int) (*object.Environment, ast.Node, *object.Error) {
-		s := NewState()
-		s.NoReg = noReg
-		var params []ast.Node
-		var args []object.Object
-		for i := 0; i < used; i++ {
-			// not an identifier any body can hold, not a constant name
-			params = append(params, &ast.Identifier{Base: ast.Base{Token: token.Intern(token.IDENT, "\x00used"+strconv.Itoa(i))}})
-			args = append(args, object.Integer{Value: 0})
-		}
-		for i := 0; i < k; i++ {
-			params = append(params, &ast.Identifier{Base: ast.Base{Token: token.Intern(token.IDENT, names[i])}})
-			if isInt[i] {
-				args = append(args, object.Integer{Value: 1})
-			} else {
-				args = append(args, object.String{Value: "s"})
-			}
-		}
-		fn := object.Function{Parameters: params, Body: body, Env: s.env, CacheKey: "verif", Lambda: true}
-		return s.extendFunctionEnv(s.env, "verif", fn, args)
+	s := NewState()
+	s.NoReg = noReg
+	var params []ast.Node
+	var args []object.Object
+	for i := 0; i < used; i++ {
+		// not an identifier any body can hold, not a constant name
+		params = append(params, &ast.Identifier{Base: ast.Base{Token: token.Intern(token.IDENT, "\x00used"+strconv.Itoa(i))}})
+		args = append(args, object.Integer{Value: 0})
 	}
-	res := make([]VerifRegResult, len(names))
-	env, newBody, oerr := run(0)
+	for i := range names {
+		params = append(params, &ast.Identifier{Base: ast.Base{Token: token.Intern(token.IDENT, names[i])}})
+		if isInt[i] {
+			args = append(args, object.Integer{Value: int64(1000 + i)})
+		} else {
+			args = append(args, object.String{Value: "s"})
+		}
+	}
+	fn := object.Function{Parameters: params, Body: body, Env: s.env, CacheKey: "verif", Lambda: true}
+	env, newBody, oerr := s.extendFunctionEnv(s.env, "verif", fn, args)
 	if oerr != nil {
 		return nil, nil, oerr
 	}
-	prev := env.VerifNumReg()
-	for k := 1; k <= len(names); k++ {
-		env, newBody, oerr = run(k)
-		if oerr != nil {
-			return nil, nil, oerr
+	res := make([]VerifRegResult, len(names))
+	for i := range res {
+		res[i] = VerifRegResult{Idx: -1}
+	}
+	for idx, v := range env.VerifRegisters() {
+		if i := int(v) - 1000; i >= 0 && i < len(names) {
+			res[i] = VerifRegResult{Kept: true, Idx: idx}
 		}
-		n := env.VerifNumReg()
-		res[k-1] = VerifRegResult{Kept: n > prev, Idx: -1}
-		if n > prev {
-			res[k-1].Idx = prev
-		}
-		prev = n
 	}
 	return newBody, res, nil
 }
